@@ -49,7 +49,8 @@ CONSTANTS Peers,        \* peer names
           DecayEvery,   \* decay interval of "d" in units (the decayer's resolution is one unit)
           Split,        \* concurrent variant: TrimOpenConns as two steps (Collect, Select) with notifications,
                         \* tag and protection calls of other goroutines in between
-          MaxBurst      \* at most this many foreign steps inside one trim
+          MaxBurst,     \* at most this many foreign steps inside one trim
+          UWindow       \* concurrent variant: also UpsertTag as UBegin / callback / UEnd
 
 \* the decayer's ticker and the manager's background ticker would fire at the same mock instant in an
 \* order the code does not fix: the bounded instances use one or the other
@@ -76,7 +77,7 @@ VARIABLES kind,    \* [Peers -> {"n","t","c"}]  not tracked / temporary entry (e
 
 vars == <<kind, cs, tg, val, age, prot, count, phase, dec, dph, dcfg, tr, op>>
 View == <<kind, cs, tg, val, age, prot, count, phase, dec, dph, dcfg, tr>>
-TrOff == [on |-> FALSE, c |-> {}, s |-> {}, n |-> 0, b |-> 0]
+TrOff == [on |-> FALSE, c |-> {}, s |-> {}, n |-> 0, b |-> 0, u |-> <<>>]
 
 RECURSIVE SumF(_, _)
 SumF(f, S) == IF S = {} THEN 0 ELSE LET x == CHOOSE x \in S : TRUE IN f[x] + SumF(f, S \ {x})
@@ -328,19 +329,37 @@ ForceTrim ==
 
 Collect ==
   /\ Split /\ ~tr.on /\ TrimRuns(age)
-  /\ tr' = [on |-> TRUE, c |-> Cands(age), s |-> {}, n |-> Target(age), b |-> 0]
+  /\ tr' = [on |-> TRUE, c |-> Cands(age), s |-> {}, n |-> Target(age), b |-> 0, u |-> <<>>]
   /\ UNCHANGED <<kind, cs, tg, val, age, prot, count, phase, dec, dph, dcfg>>
   /\ op' = [name |-> "collect", cands |-> Cands(age), target |-> Target(age)]
 
 MayPrune == IF tr.n > 0 THEN { p \in tr.c \ tr.s : kind[p] = "t" } ELSE {}
 
 Select ==
-  /\ tr.on
+  /\ tr.on /\ tr.u = <<>>
   /\ \E P \in SUBSET MayPrune :
         /\ ApplyPrune(P, age, dec)
         /\ op' = [name |-> "select", pruned |-> P, mayprune |-> MayPrune, stale |-> tr.s]
   /\ tr' = TrOff
   /\ UNCHANGED <<cs, prot, count, phase, dph, dcfg>>
+
+(* User callbacks are interference points too.  UpsertTag hands the tag's current value to the caller's     *)
+(* function and stores the result.  The code runs the function INSIDE the segment's critical section, so   *)
+(* nothing can get in between; the variant below describes what any implementation has to guarantee if    *)
+(* that window existed (the harness probes it with TryLock from inside the callback): foreign steps between *)
+(* UBegin and UEnd, and the outcome is that of a sequential order - here: the function applied to the       *)
+(* value current at UEnd.  The bounded model's function is x |-> min(x + 1, MaxVal).                        *)
+UBegin(p, t) ==
+  /\ Split /\ UWindow /\ ~tr.on
+  /\ tr' = [TrOff EXCEPT !.on = TRUE, !.u = <<p, t>>]
+  /\ UNCHANGED <<kind, cs, tg, val, age, prot, count, phase, dec, dph, dcfg>>
+  /\ op' = [name |-> "ubegin", p |-> p, t |-> t]
+
+UEnd ==
+  /\ tr.on /\ tr.u # <<>>
+  /\ SetTag(tr.u[1], tr.u[2], Min(OldVal(tr.u[1], tr.u[2]) + 1, MaxVal))
+  /\ tr' = TrOff
+  /\ op' = [name |-> "uend", p |-> tr.u[1], t |-> tr.u[2], v |-> Min(OldVal(tr.u[1], tr.u[2]) + 1, MaxVal)]
 
 \* calls other goroutines may make at any time
 Foreign == \/ \E c \in Conns : Connected(c) \/ Disconnected(c)
@@ -357,11 +376,13 @@ Next == \/ /\ ~tr.on
               \/ Trim
               \/ ForceTrim
            /\ UNCHANGED tr
-        \/ /\ tr.on /\ tr.b < MaxBurst
+        \/ /\ tr.on /\ tr.b < (IF tr.u = <<>> THEN MaxBurst ELSE 1)   \* one foreign step inside a callback
            /\ Foreign
            /\ tr' = [tr EXCEPT !.s = @ \cup (Gone \cap tr.c), !.b = @ + 1]
         \/ Collect
         \/ Select
+        \/ \E p \in TagPeers, t \in Tags : UBegin(p, t)
+        \/ UEnd
 
 Spec == Init /\ [][Next]_vars
 
